@@ -38,7 +38,8 @@ let () =
     let jw = out_jw fops t in
     out_sv "JW" jw;
     out_cat "JTF" (out_jtf fops t);
-    out_sv "BIAS" (out_bias fops t);
+    let bias = out_bias fops t in
+    out_sv "BIAS" bias;
     out_sv "ACC" (out_acc fops t);
     let jwi = byidx jw in
     let tl = List.rev !tasks in
@@ -51,6 +52,11 @@ let () =
     out_cat "STJT" (out_jt_custom fops (force_of (fun p fv _ -> station_force fops p fv)) t);
     List.iter (fun (i, b, p, _, _) -> Printf.printf "OUT FRJ %d" i; pr_sv (frame_of fops p (List.assoc b jwi)); print_newline ()) tl;
     out_cat "FRJT" (out_jt_custom fops (force_of (fun p _ fF -> frame_force fops p fF)) t);
+    (* station / frame bias: the task acceleration expression at the body's bias acceleration and current velocity *)
+    let veli = byidx (out_vel fops t) and biasi = byidx bias in
+    List.iter (fun (i, b, p, _, _) -> let fa = frame_acc fops p (List.assoc b veli) (List.assoc b biasi) in
+                let (_, ((x, y), z)) = fa in Printf.printf "OUT STB %d %h %h %h\n" i x y z;
+                Printf.printf "OUT FRB %d" i; pr_sv fa; print_newline ()) tl;
     out_sv "JMATW" jw;
     let mw = cat (out_mw fops t) in
     Printf.printf "OUT MW"; pr_list mw; print_newline ();
